@@ -188,6 +188,13 @@ func genProject(r *rand.Rand, o genOpts) *projSpec {
 				p.Files[filepath.Join(dir, d, "fr", "other.txt")] = "salut\n"
 			}
 		}
+		t.SrcTwice = r.IntN(100) < 8
+		if len(t.Generates) > 0 && r.IntN(100) < 8 {
+			// a source whose name begins with the name of a file the target generates
+			name := t.Generates[0] + ".tmpl"
+			t.Sources = append(t.Sources, name)
+			p.Files[filepath.Join(dir, name)] = "template of " + t.Name + " v0\n"
+		}
 		if i > 0 && r.IntN(100) < 12 {
 			// a plain source file of an earlier target (often in another package) is a source
 			// of this one too: one source label, named from two modules
